@@ -1,0 +1,67 @@
+//! Read-only observation hooks for the external verification harness.
+//! Compiled only with `--cfg nacos_group_r_nacos_verif`; nothing here changes behaviour.
+#![allow(dead_code)]
+use std::sync::Mutex;
+
+lazy_static::lazy_static! {
+    static ref LOG: Mutex<Vec<String>> = Mutex::new(Vec::new());
+}
+
+/// record an outgoing message that has no observable trace from outside the process
+pub fn record(line: String) {
+    if let Ok(mut l) = LOG.lock() {
+        l.push(line);
+    }
+}
+
+/// take (and clear) everything recorded so far
+pub fn drain() -> Vec<String> {
+    match LOG.lock() {
+        Ok(mut l) => std::mem::take(&mut *l),
+        Err(_) => vec![],
+    }
+}
+
+/// dump of the config actor's internal bookkeeping
+#[derive(actix::Message)]
+#[rtype(result = "String")]
+pub struct VerifDumpConfig;
+
+impl actix::Handler<VerifDumpConfig> for crate::config::core::ConfigActor {
+    type Result = String;
+
+    fn handle(&mut self, _msg: VerifDumpConfig, _ctx: &mut Self::Context) -> Self::Result {
+        let mut keys: Vec<String> = self
+            .cache
+            .iter()
+            .map(|(k, v)| {
+                format!(
+                    "{}/{}/{}:tmp={}:nhist={}",
+                    k.data_id,
+                    k.group,
+                    k.tenant,
+                    if v.tmp { 1 } else { 0 },
+                    v.histories.len()
+                )
+            })
+            .collect();
+        keys.sort();
+        let mut listed = vec![];
+        for (tenant, idx) in &self.tenant_index.tenant_group {
+            for (group, set) in &idx.group_data {
+                for data_id in set {
+                    listed.push(format!("{}/{}/{}", data_id, group, tenant));
+                }
+            }
+        }
+        listed.sort();
+        format!(
+            "size={} listed={} cache={} {} {}",
+            self.tenant_index.size,
+            listed.join(","),
+            keys.join(","),
+            self.listener.verif_dump(),
+            self.subscriber.verif_dump()
+        )
+    }
+}
